@@ -231,10 +231,70 @@ def rule_5(ctx):
     ctx.floor(4, 'node classes')
 
 
+def _col_index(letters):
+    n = 0
+    for ch in str(letters).upper():
+        n = n * 26 + (ord(ch) - 64)
+    return n
+
+
+def rule_6(ctx):
+    """Custom pickling hooks (__getstate__ / __setstate__ / __reduce__) of the classes that end up in the persisted maps:
+    state taken from a witness instance and put into a fresh one must give back every field - whatever value the cell holds
+    (a computed 0 / FALSE / blank is a value, not "unset")."""
+    from xlsa.guards import World
+    xm = ctx.mod('xltypes')
+    n = 0
+    hooks = ('__getstate__', '__setstate__', '__reduce__', '__reduce_ex__')
+    persisted = [f'pkg:{m.name}:{q}' for m in ctx.repo.modules.values() for q in m.classes
+                 if m.name in ('xltypes', 'tokenizer', 'ast_nodes')]
+    for cref in sorted(persisted):
+        m, cnode = ctx.res.lookup(cref)
+        own = [h for h in hooks if isinstance(ctx.res.class_attr(cref, h)[1], ast.FunctionDef)]
+        ctx.ok(cnode, f'{cref.split(":")[-1]}: pickling hooks enumerated ({", ".join(own) or "none - default protocol"})')
+        n += 1
+        if not own or cref != 'pkg:xltypes:XLCell' and not cref.startswith('pkg:xltypes:'):
+            continue
+        if any(h.startswith('__reduce') for h in own):
+            ctx.unmodelled(cnode, f'{cref}: __reduce__ protocol')
+            continue
+        # witnesses: one per kind of content
+        def val(cls, v):
+            return Rec(cls=XLT + cls, value=v)
+        contents = [('the computed number 0', val('Number', 0)), ('the computed FALSE', val('Boolean', False)), ('a computed blank', val('Blank', None)),
+                    ('the computed number 5', val('Number', 5)), ('the constant 0', 0), ('the constant text ""', ''), ('no value', None),
+                    ('the constant 7.5', 7.5)]
+        for label, content in contents:
+            world = World()
+            fields = {'address': 'Sheet1!B2', 'sheet': 'Sheet1', 'row': '2', 'row_index': 2, 'column': 'B', 'column_index': 2, 'value': content,
+                      'formula': None, 'defined_names': ['nm'] if label == 'no value' else []}
+            if cref != 'pkg:xltypes:XLCell':
+                continue
+            src = Rec(cls=cref, **fields)
+            models = {'ext:openpyxl.utils.cell.column_index_from_string': _col_index, 'ext:openpyxl.utils.column_index_from_string': _col_index}
+            it = Interp(ctx.a, m, {'src': src, 'dst': Rec(cls=cref)}, inline_pkg=True, world=world, call_models=models)
+            prog = 'state = src.__getstate__()\n' if '__getstate__' in own else 'state = dict(src.__dict__)\n'
+            prog += 'dst.__setstate__(state)\n' if '__setstate__' in own else 'dst.__dict__.update(state)\n'
+            out = it.run(ast.parse(prog).body)
+            if out.end == 'raise':
+                ctx.bad(cnode, f'{cref.split(":")[-1]} state round trip with {label}', f'taking / restoring the state of a cell holding {label} raises {out.value!r}')
+                continue
+            dst = it.env['dst']
+            lost = {k: (fields[k], dst.f.get(k, '<missing>')) for k in fields
+                    if not (k in dst.f and (dst.f[k] is fields[k] or (not isinstance(fields[k], Rec) and dst.f[k] == fields[k]
+                                                                      and type(dst.f[k]) is type(fields[k]))))}
+            n += 1
+            ctx.expect(not lost, cnode, f'{cref.split(":")[-1]} state round trip with {label}',
+                       f'a cell holding {label} comes back from __getstate__/__setstate__ with {lost}: what an evaluation stored in the cell '
+                       '(0, FALSE, a blank are values) is not in the persisted state, so the restored model differs from the persisted one')
+    ctx.floor(8, 'persisted classes')
+
+
 RULES = [
     ('C12.1', 'writer and reader agree on keys, attributes and options', rule_1),
     ('C12.2', 'compression predicate agrees', rule_2),
     ('C12.3', 'stored value and error classes are reconstructible', rule_3),
     ('C12.4', 'restoring recompiles the formulas', rule_4),
     ('C12.5', 'evaluation leaves only rebuildable objects on the persisted formula nodes', rule_5),
+    ('C12.6', 'custom pickling hooks of persisted classes give every field back', rule_6),
 ]
